@@ -19,7 +19,7 @@ class Sc(scen.Scenario):
             yield "in announce 0"
             yield "in start"
             self.running = True
-            yield from scen.natural(impl, impl.loop.ticks)
+            yield from scen.natural(impl, impl.loop.ticks, self)
 
     def epilogue_times(self):
         return [1500, 4000, 17000000 * 1000]
